@@ -34,8 +34,11 @@ ZipFileReader`, `ZipFileReader::finish_crypto` (the end-of-entry authentication 
                                   `entry_eof_implies_mac` / `entryDrain` are stated about (same bytes / error / panic,
                                   the handle's reader afterwards = the model's state), for every decoder strategy that
                                   keeps the `Read` contract (`GoodDec`: at most `n` bytes back, `io::Error`s, pulls below
-                                  2^64), every source, every primitive triple.  (`Bzip2` / `Zstd`: the same proof with the
-                                  other constructor; `tie_layers_read` is stated for every decoder kind.)
+                                  2^64), every source, every primitive triple.
+  tie_entry_read_bzip2,           the same for `Bzip2` (`tie_layers_read` is stated for every decoder kind), and for a
+  tie_entry_read_stored           `Stored` entry - `Crc32Reader<CryptoReader::Aes>` directly, `finish_crypto` a no-op on
+                                  both sides - against `entryRead … storedDec false` (`entry_eof_implies_mac_stored`).
+                                  (`Zstd` adds `io::BufReader` between decoder and layer: two strategies composed; left.)
 
 Trusted vocabulary (`Basic/RsE.lean`): the `Take` over the archive's reader is an arbitrary `Rs.Read`; the external
 decoders are `E.Dec` with ONE `read` call an arbitrary function (`DecOps`, a named parameter - `finish_crypto` is
@@ -892,6 +895,265 @@ theorem tie_entry_read {δ : Type} (P : AesPrims) (hW : P.WF) (S : Src σ) (hS :
         obtain ⟨k', rfl⟩ := copyToSink_err_io P hW S hS hin _ st'.aes hle e v2 hfc2
         rfl
       | panic m => rfl
+    · rw [if_neg hc, if_neg hc]
+
+/-- the model state as the handle's reader: `ZipFileReader::Bzip2(Crc32Reader<BzDecoder<CryptoReader::Aes>>)` -/
+def embedReaderBz {δ : Type} (P : AesPrims) (D : Decoder δ) (vv : Gen.AesVendorVersion) (st : EntrySt σ δ Rs.Crc32Hasher) :
+    @Gen.E.ZipFileReader (dynOf P) (decOpsOf D) σ :=
+  @Gen.E.ZipFileReader.Bzip2 (dynOf P) (decOpsOf D) σ (embedStack P D .bzip2 vv st)
+
+/-- **`ZipFile::read` on a handle reading a Bzip2 AES entry IS `Model.Aes.entryRead … true`** - the function
+`Props/C16.entry_eof_implies_mac` and `entryDrain` are stated about -, for every decoder strategy keeping the `Read`
+contract, every source, every primitive triple: same bytes / error / panic, and the handle's reader afterwards is the
+model's state.  (`fuel`: the rounds granted to `io::copy`; the model's choice.) -/
+theorem tie_entry_read_bzip2 {δ : Type} (P : AesPrims) (hW : P.WF) (S : Src σ) (hS : S.Contract) (hin : SmallA S)
+    (D : Decoder δ) (hD : GoodDec D) (vv : Gen.AesVendorVersion)
+    (mk : Gen.CompressionMethod → UInt32 → @Gen.E.CryptoReader (dynOf P) σ → Option (@Gen.E.ZipFileReader (dynOf P) (decOpsOf D) σ))
+    (z : @Gen.E.ZipFile (dynOf P) (decOpsOf D) σ) (st : EntrySt σ δ Rs.Crc32Hasher) (hz : readerOf P D z = embedReaderBz P D vv st)
+    (n : Nat) (hn : n < 2 ^ 64) (hrem : st.aes.dataRemaining < 2 ^ 64) (fuel : Nat)
+    (hfuel : fuel = (layersRead P S D Rs.Crc32Hasher.update Rs.Crc32Hasher.finalize st n).2.aes.dataRemaining + 1) :
+    (fun g : Rs.IoRes UInt64 × @Gen.E.ZipFile (dynOf P) (decOpsOf D) σ × Bytes => (outRead g.1 g.2.2, readerOf P D g.2.1))
+        (@Gen.E.ZipFile.read (primsOf P) (dynOf P) (decOpsOf D) σ (readOfA S) mk fuel z (List.replicate n 0)) =
+      (eraseMsg (entryRead P S D true Rs.Crc32Hasher.update Rs.Crc32Hasher.finalize st n).1,
+        embedReaderBz P D vv (entryRead P S D true Rs.Crc32Hasher.update Rs.Crc32Hasher.finalize st n).2) := by
+  have hlenr : (List.replicate n (0 : UInt8)).length = n := List.length_replicate
+  have hb : readerOf P D z ≠ @Gen.E.ZipFileReader.NoReader (dynOf P) (decOpsOf D) σ := by rw [hz]; intro h; cases h
+  have hlen : (@Gen.E.ZipFileReader.read (primsOf P) (dynOf P) (decOpsOf D) σ (readOfA S) (readerOf P D z) (List.replicate n 0)).2.2.length = n := by
+    rw [hz]
+    have h1 := @reader_read_bzip2 (primsOf P) (dynOf P) (decOpsOf D) σ (readOfA S) (embedStack P D .bzip2 vv st) (List.replicate n 0)
+    unfold embedReaderBz
+    rw [h1]
+    unfold under
+    exact (@crc_read_len _ (stackRead P S D .bzip2) _ _).trans hlenr
+  have hglue := @tie_zipfile_read_glue (primsOf P) (dynOf P) (decOpsOf D) σ (readOfA S) mk fuel z n hn hb hlen
+  show (fun g : Rs.IoRes UInt64 × @Gen.E.ZipFile (dynOf P) (decOpsOf D) σ × Bytes => (outRead g.1 g.2.2, @Gen.E.ZipFile.reader (dynOf P) (decOpsOf D) σ g.2.1)) _ = _
+  rw [hglue, entryRead_eq_glue]
+  show entryGlue _ _ (readerOf P D z) n = _
+  rw [hz]
+  have hL := tie_layers_read P hW S hS hin D hD .bzip2 vv st n hn hrem
+  have hrv : @readerView (primsOf P) (dynOf P) (decOpsOf D) σ (readOfA S) (embedReaderBz P D vv st) n =
+      (eraseMsg (layersRead P S D Rs.Crc32Hasher.update Rs.Crc32Hasher.finalize st n).1,
+        embedReaderBz P D vv (layersRead P S D Rs.Crc32Hasher.update Rs.Crc32Hasher.finalize st n).2) := by
+    unfold readerView embedReaderBz
+    rw [@reader_read_bzip2 (primsOf P) (dynOf P) (decOpsOf D) σ (readOfA S) (embedStack P D .bzip2 vv st) (List.replicate n 0)]
+    unfold under
+    have h1 := congrArg Prod.fst hL
+    have h2 := congrArg Prod.snd hL
+    exact Prod.ext h1 (congrArg (@Gen.E.ZipFileReader.Bzip2 (dynOf P) (decOpsOf D) σ) h2)
+  unfold entryGlue
+  rw [hrv]
+  have hle : (layersRead P S D Rs.Crc32Hasher.update Rs.Crc32Hasher.finalize st n).2.aes.dataRemaining < 2 ^ 64 := by
+    rw [layersRead_aes]
+    split
+    · exact hrem
+    · exact Nat.lt_of_le_of_lt (runDecG_eq P hW S hS hin st.dec vv n (D.read st.dec n) (hD st.dec n) st.aes hrem).2 hrem
+  rcases hlr : layersRead P S D Rs.Crc32Hasher.update Rs.Crc32Hasher.finalize st n with ⟨o, st'⟩
+  rw [hlr] at hfuel hle
+  simp only [] at hfuel hle
+  cases o with
+  | err e => rfl
+  | panic m => rfl
+  | ok bs =>
+    simp only [eraseMsg]
+    by_cases hc : bs.length = 0 ∧ n ≠ 0
+    · rw [if_pos hc, if_pos hc]
+      have hfc := @tie_finish_crypto σ (decOpsOf D) P hW S hS hin (embedReaderBz P D vv st') st'.aes vv rfl hle
+      unfold finishView
+      subst hfuel
+      rw [hfc]
+      rcases hfc2 : finishCrypto P S true st'.aes with ⟨o2, v2⟩
+      cases o2 with
+      | ok u => rfl
+      | err e =>
+        obtain ⟨k', rfl⟩ := copyToSink_err_io P hW S hS hin _ st'.aes hle e v2 hfc2
+        rfl
+      | panic m => rfl
+    · rw [if_neg hc, if_neg hc]
+
+/-! #### a `Stored` AES entry: no decoder, `Model.Aes.entryRead … storedDec false` -/
+
+theorem read_len_le (P : AesPrims) (S : Src σ) (v : Valid σ) (n : Nat) (out : Bytes) (v' : Valid σ)
+    (h : Valid.read P S v n = (.ok out, v')) : out.length ≤ n := by
+  unfold Valid.read at h
+  by_cases h0 : v.dataRemaining = 0
+  · rw [if_pos h0] at h
+    by_cases hf : v.finalized = true
+    · rw [if_pos hf] at h
+      simp only [Prod.mk.injEq, Out.ok.injEq] at h
+      rw [← h.1]; exact Nat.zero_le _
+    · rw [if_neg hf] at h
+      dsimp only at h
+      rcases hx : readExact S v.inner AUTH_CODE_LENGTH with ⟨o, s⟩
+      rw [hx] at h
+      cases o with
+      | ok code =>
+        dsimp only at h
+        split at h
+        · simp at h
+        · simp only [Prod.mk.injEq, Out.ok.injEq] at h
+          rw [← h.1]; exact Nat.zero_le _
+      | err e => simp at h
+      | panic m => simp at h
+  · rw [if_neg h0] at h
+    dsimp only at h
+    rcases hx : S.rd v.inner (min v.dataRemaining n) with ⟨r, s'⟩
+    rw [hx] at h
+    cases r with
+    | err k => simp at h
+    | ok bs =>
+      dsimp only at h
+      split at h
+      · simp at h
+      · split at h
+        · simp at h
+        · split at h
+          · simp at h
+          · rename_i hle
+            rcases hc : cryptInPlace P v.key v.ctr bs with x | e | m
+            · rw [hc] at h
+              have hpl : x.1.length = bs.length := by
+                obtain ⟨pt, ctr'⟩ := x
+                exact cryptLoop_length P v.key bs.length v.ctr ctr' bs pt hc
+              dsimp only at h
+              split at h
+              · split at h
+                · simp at h
+                · rcases hy : readExact S s' AUTH_CODE_LENGTH with ⟨o, s2⟩
+                  rw [hy] at h
+                  cases o with
+                  | ok code =>
+                    dsimp only at h
+                    split at h
+                    · simp at h
+                    · simp only [Prod.mk.injEq, Out.ok.injEq] at h
+                      rw [← h.1, hpl]; omega
+                  | err e => simp at h
+                  | panic m => simp at h
+              · simp only [Prod.mk.injEq, Out.ok.injEq] at h
+                rw [← h.1, hpl]; omega
+            · rw [hc] at h; simp at h
+            · rw [hc] at h; simp at h
+
+theorem asRead_small {R : Type} (f : R → Bytes → Rs.IoRes UInt64 × R × Bytes) : Small (@srcOfRead R (Rs.E.asRead f)) := by
+  intro s m bs s' h
+  have h3 : (toRR (@Rs.Read.rd _ (Rs.E.asRead f) s m).1, (@Rs.Read.rd _ (Rs.E.asRead f) s m).2) =
+      (Model.Layers.ReadRes.ok bs, s') := h
+  rw [rd_asRead] at h3
+  rcases hx : f s (List.replicate m 0) with ⟨o, r', b⟩
+  rw [hx] at h3
+  cases o with
+  | ok c =>
+    simp only [toRR, Prod.mk.injEq, Model.Layers.ReadRes.ok.injEq] at h3
+    rw [← h3.1, List.length_take]
+    have := c.toNat_lt
+    omega
+  | err e => simp [toRR] at h3
+  | panic => simp [toRR] at h3
+
+/-- a model state of a `Stored` AES entry as the generated stack `Crc32Reader<CryptoReader::Aes>` -/
+def embedStored (P : AesPrims) (vv : Gen.AesVendorVersion) (st : EntrySt σ Unit Rs.Crc32Hasher) :
+    Gen.Crc32Reader (@Gen.E.CryptoReader (dynOf P) σ) :=
+  ⟨@Gen.E.CryptoReader.Aes (dynOf P) σ (toGen P st.aes) vv, st.crc.hasher, st.crc.check, st.crc.ae2⟩
+
+theorem tie_layers_read_stored (P : AesPrims) (hW : P.WF) (S : Src σ) (hS : S.Contract) (hin : SmallA S)
+    (vv : Gen.AesVendorVersion) (st : EntrySt σ Unit Rs.Crc32Hasher) (n : Nat) (hn : n < 2 ^ 64)
+    (hrem : st.aes.dataRemaining < 2 ^ 64) :
+    (fun g : Rs.IoRes UInt64 × _ × Bytes => (outRead g.1 g.2.2, g.2.1))
+        (@Gen.Crc32Reader.read _ (@Gen.E.read_CryptoReader (primsOf P) (dynOf P) σ (readOfA S))
+          (embedStored P vv st) (List.replicate n 0)) =
+      (eraseMsg (layersRead P S storedDec Rs.Crc32Hasher.update Rs.Crc32Hasher.finalize st n).1,
+        embedStored P vv (layersRead P S storedDec Rs.Crc32Hasher.update Rs.Crc32Hasher.finalize st n).2) := by
+  have hlen : (List.replicate n (0 : UInt8)).length = n := List.length_replicate
+  have key := tie_crc32reader_read (@srcOfRead _ (@Gen.E.read_CryptoReader (primsOf P) (dynOf P) σ (readOfA S)))
+    (embedStored P vv st) (List.replicate n 0) (by rw [hlen]; exact hn) (asRead_small _)
+  rw [readOf_srcOfRead, hlen] at key
+  have hrd1 : @Rs.Read.rd _ (@Gen.E.read_CryptoReader (primsOf P) (dynOf P) σ (readOfA S)) (embedStored P vv st).inner n =
+      ((rdView P (Valid.read P S st.aes n)).1,
+        @Gen.E.CryptoReader.Aes (dynOf P) σ (rdView P (Valid.read P S st.aes n)).2 vv) := by
+    show @Rs.Read.rd _ (@Gen.E.read_CryptoReader (primsOf P) (dynOf P) σ (readOfA S)) (@Gen.E.CryptoReader.Aes (dynOf P) σ (toGen P st.aes) vv) n = _
+    rw [rd_crypto_aes, rd_toGen P hW S hS hin st.aes n hn hrem]
+  have hview : ∀ g : Rs.IoRes UInt64 × Gen.Crc32Reader (@Gen.E.CryptoReader (dynOf P) σ) × Bytes,
+      (outRead g.1 g.2.2, g.2.1) = ((match (view g).1 with
+        | .ok bs => Out.ok bs
+        | .err e => .err (.io e)
+        | .panic => .panic ""), (view g).2) := by
+    rintro ⟨o, r, b⟩
+    cases o <;> rfl
+  show (outRead _ _, _) = _
+  rw [hview, key]
+  unfold crcLift Model.Layers.crcLayer layersRead crcRead
+  simp only [srcOfRead, hrd1]
+  by_cases h0 : n = 0
+  · subst h0
+    simp [eraseMsg, embedStored]
+  · simp only [h0, if_false, storedDec, runDec]
+    have hl := read_len_le P S st.aes n
+    have hio := read_err_io P hW S hS hin st.aes n hn hrem
+    rcases hm : Valid.read P S st.aes n with ⟨m1, v'⟩
+    rw [hm] at hl hio
+    cases m1 with
+    | ok bs =>
+      have hl' := hl bs v' rfl
+      have hemp : bs.isEmpty = decide (bs.length = 0) := by cases bs <;> simp
+      have hsym : (st.crc.hasher.reg ^^^ 4294967295 = st.crc.check) = (st.crc.check = st.crc.hasher.reg ^^^ 4294967295) :=
+        propext eq_comm
+      by_cases hc : st.crc.check = st.crc.hasher.reg ^^^ 4294967295 <;>
+        cases hae : st.crc.ae2 <;>
+        by_cases hz : bs.length = 0 <;>
+        simp [rdView, toRR, embedStored, eraseMsg, hemp, hsym, hc, hae, hz, hl', Rs.Crc32Hasher.update, Rs.Crc32Hasher.finalize, Spec.Crc32.finalize]
+    | err e =>
+      obtain ⟨k', rfl⟩ := hio e v' rfl
+      simp [rdView, toRR, embedStored, eraseMsg]
+    | panic m => simp [rdView, toRR, embedStored, eraseMsg]
+
+/-- **`ZipFile::read` on a handle reading a Stored AES entry is `Model.Aes.entryRead … storedDec false`** (what
+`Props/C16.entry_eof_implies_mac_stored` is stated about); `finish_crypto` does nothing on either side. -/
+theorem tie_entry_read_stored (dops : Rs.E.DecOps) (P : AesPrims) (hW : P.WF) (S : Src σ) (hS : S.Contract) (hin : SmallA S)
+    (vv : Gen.AesVendorVersion)
+    (mk : Gen.CompressionMethod → UInt32 → @Gen.E.CryptoReader (dynOf P) σ → Option (@Gen.E.ZipFileReader (dynOf P) dops σ))
+    (z : @Gen.E.ZipFile (dynOf P) dops σ) (st : EntrySt σ Unit Rs.Crc32Hasher)
+    (hz : @Gen.E.ZipFile.reader (dynOf P) dops σ z = @Gen.E.ZipFileReader.Stored (dynOf P) dops σ (embedStored P vv st))
+    (n : Nat) (hn : n < 2 ^ 64) (hrem : st.aes.dataRemaining < 2 ^ 64) (fuel : Nat) :
+    (fun g : Rs.IoRes UInt64 × @Gen.E.ZipFile (dynOf P) dops σ × Bytes =>
+        (outRead g.1 g.2.2, @Gen.E.ZipFile.reader (dynOf P) dops σ g.2.1))
+        (@Gen.E.ZipFile.read (primsOf P) (dynOf P) dops σ (readOfA S) mk fuel z (List.replicate n 0)) =
+      (eraseMsg (entryRead P S storedDec false Rs.Crc32Hasher.update Rs.Crc32Hasher.finalize st n).1,
+        @Gen.E.ZipFileReader.Stored (dynOf P) dops σ
+          (embedStored P vv (entryRead P S storedDec false Rs.Crc32Hasher.update Rs.Crc32Hasher.finalize st n).2)) := by
+  have hlenr : (List.replicate n (0 : UInt8)).length = n := List.length_replicate
+  have hb : @Gen.E.ZipFile.reader (dynOf P) dops σ z ≠ @Gen.E.ZipFileReader.NoReader (dynOf P) dops σ := by
+    rw [hz]; intro h; cases h
+  have hrr := @reader_read_stored (primsOf P) (dynOf P) dops σ (readOfA S) (embedStored P vv st) (List.replicate n 0)
+  have hlen : (@Gen.E.ZipFileReader.read (primsOf P) (dynOf P) dops σ (readOfA S)
+      (@Gen.E.ZipFile.reader (dynOf P) dops σ z) (List.replicate n 0)).2.2.length = n := by
+    rw [hz, hrr]
+    unfold under
+    exact (@crc_read_len _ (@Gen.E.read_CryptoReader (primsOf P) (dynOf P) σ (readOfA S)) _ _).trans hlenr
+  have hglue := @tie_zipfile_read_glue (primsOf P) (dynOf P) dops σ (readOfA S) mk fuel z n hn hb hlen
+  rw [hglue, entryRead_eq_glue, hz]
+  have hL := tie_layers_read_stored P hW S hS hin vv st n hn hrem
+  have hrv : @readerView (primsOf P) (dynOf P) dops σ (readOfA S)
+      (@Gen.E.ZipFileReader.Stored (dynOf P) dops σ (embedStored P vv st)) n =
+      (eraseMsg (layersRead P S storedDec Rs.Crc32Hasher.update Rs.Crc32Hasher.finalize st n).1,
+        @Gen.E.ZipFileReader.Stored (dynOf P) dops σ
+          (embedStored P vv (layersRead P S storedDec Rs.Crc32Hasher.update Rs.Crc32Hasher.finalize st n).2)) := by
+    unfold readerView
+    rw [hrr]
+    unfold under
+    have h1 := congrArg Prod.fst hL
+    have h2 := congrArg Prod.snd hL
+    exact Prod.ext h1 (congrArg (@Gen.E.ZipFileReader.Stored (dynOf P) dops σ) h2)
+  unfold entryGlue
+  rw [hrv]
+  rcases hlr : layersRead P S storedDec Rs.Crc32Hasher.update Rs.Crc32Hasher.finalize st n with ⟨o, st'⟩
+  cases o with
+  | err e => rfl
+  | panic m => rfl
+  | ok bs =>
+    simp only [eraseMsg]
+    by_cases hc : bs.length = 0 ∧ n ≠ 0
+    · rw [if_pos hc, if_pos hc]
+      rfl
     · rw [if_neg hc, if_neg hc]
 
 end ZipVerif.Tie.EntryRead
